@@ -121,3 +121,486 @@ Proof.
   unfold dw_consistent, no_degenerate in *. rewrite Forall_forall in Hc, Hd.
   apply layer_cost_export; [exact Hg|exact (Hc _ Hin)|exact (Hd _ Hin)].
 Qed.
+
+(* ================================================================== open masks: k_eff = K for every K *)
+
+Lemma keep_alive_ones n : keep_alive (repeat 1%Q n) = repeat 1%Q n.
+Proof.
+  induction n as [|n IH]; [reflexivity|]. destruct n as [|n]; [reflexivity|].
+  change (repeat 1%Q (S (S n))) with (1%Q :: repeat 1%Q (S n)).
+  change (keep_alive (1%Q :: repeat 1%Q (S n))) with (qabs 1 :: keep_alive (repeat 1%Q (S n))).
+  rewrite IH. reflexivity.
+Qed.
+
+Lemma nq_S n : (nq (S n) == nq n + 1)%Q.
+Proof. unfold nq. rewrite Nat2Z.inj_succ. unfold Z.succ. rewrite inject_Z_plus. reflexivity. Qed.
+Lemma nq_plus a b : (nq (a + b) == nq a + nq b)%Q.
+Proof. unfold nq. rewrite Nat2Z.inj_add, inject_Z_plus. reflexivity. Qed.
+Lemma nq_mult a b : (nq (a * b) == nq a * nq b)%Q.
+Proof. unfold nq. rewrite Nat2Z.inj_mul, inject_Z_mult. reflexivity. Qed.
+
+Lemma qsum_repeat_one n : (qsum (repeat 1%Q n) == nq n)%Q.
+Proof. induction n as [|n IH]; [reflexivity|]. cbn [repeat]. rewrite qsum_cons, IH, nq_S. ring. Qed.
+
+Lemma firstn_repeat {A} (x : A) n k : n <= k -> firstn n (repeat x k) = repeat x n.
+Proof. revert k. induction n as [|n IH]; intros k H; [reflexivity|]. destruct k as [|k]; [lia|]. cbn. f_equal. apply IH. lia. Qed.
+
+Lemma nq_inv n : 1 <= n -> (nq n * (1 # Pos.of_nat n) == 1)%Q.
+Proof.
+  intros H. unfold nq, Qeq, Qmult. cbn [Qnum Qden]. destruct n as [|n]; [lia|].
+  assert (E : Zpos (Pos.of_nat (S n)) = Z.of_nat (S n)) by (rewrite <- Pos.of_nat_succ, Zpos_P_of_succ_nat, Nat2Z.inj_succ; lia).
+  cbn [inject_Z Qnum Qden]. rewrite Pos.mul_1_l, E. lia.
+Qed.
+
+(* theta_beta * beta_norm : all ones *)
+Lemma beta_open_nth K t : t < K ->
+  (qsum (firstn (S t) (keep_alive (repeat 1%Q K))) * (1 # Pos.of_nat (S t)) == 1)%Q.
+Proof. intros H. rewrite keep_alive_ones, firstn_repeat by lia. rewrite qsum_repeat_one. apply nq_inv. lia. Qed.
+
+Lemma qsum_indicator (c : nat -> bool) l :
+  (qsum (map (fun i => if c i then 1%Q else 0%Q) l) == nq (length (filter c l)))%Q.
+Proof.
+  induction l as [|x t IH]; [reflexivity|]. cbn [map filter]. rewrite qsum_cons, IH.
+  destruct (c x); cbn [length]; [rewrite nq_S|]; ring.
+Qed.
+
+Lemma theta_gamma_at_ones L d :
+  (theta_gamma_at (repeat 1%Q L) d == nq (length (filter (fun p => Nat.eqb (d mod 2 ^ p) 0) (seq 0 L))))%Q.
+Proof.
+  unfold theta_gamma_at. rewrite repeat_length. rewrite <- qsum_indicator.
+  apply qsum_map_ext. intros i Hi. apply in_seq in Hi.
+  destruct (Nat.eqb (d mod 2 ^ i) 0); [|reflexivity].
+  rewrite nth_indep with (d' := 1%Q) by (rewrite repeat_length; lia).
+  rewrite nth_repeat. reflexivity.
+Qed.
+
+Lemma comb_count_pos L d : 1 <= L -> 1 <= length (filter (fun p => Nat.eqb (d mod 2 ^ p) 0) (seq 0 L)).
+Proof.
+  intros H. destruct L as [|L]; [lia|]. cbn [seq filter]. cbn [Nat.pow]. rewrite Nat.mod_1_r. cbn. lia.
+Qed.
+
+Lemma gamma_len_pos K : 1 <= gamma_len K.
+Proof. unfold gamma_len. lia. Qed.
+
+Lemma qmul3_map (f g : nat -> Q) l : qmul3 (map f l) (map g l) = map (fun i => (f i * g i)%Q) l.
+Proof. unfold qmul3. induction l as [|x t IH]; [reflexivity|]. cbn. f_equal. exact IH. Qed.
+
+Lemma qsum_map_one {A} (f : A -> Q) l : (forall x, In x l -> (f x == 1)%Q) -> (qsum (map f l) == nq (length l))%Q.
+Proof.
+  induction l as [|x t IH]; intros H; [reflexivity|]. cbn [map length]. rewrite qsum_cons, nq_S, IH, (H x) by (intros; try apply H; simpl; auto). ring.
+Qed.
+
+(* with all masks open the continuous effective kernel size is K, for EVERY K >= 1 *)
+Theorem k_eff_open K : 1 <= K ->
+  (k_eff_cont true K (repeat 1%Q K) (repeat 1%Q (gamma_len K)) == nq K)%Q.
+Proof.
+  intros HK. unfold k_eff_cont, theta_gamma, theta_beta, gamma_norm, beta_norm. rewrite repeat_length.
+  rewrite !qmul3_map. transitivity (nq (length (seq 0 K))); [|rewrite seq_length; reflexivity].
+  apply qsum_map_one. intros j Hj. apply in_seq in Hj. unfold dist.
+  rewrite (beta_open_nth K j) by lia. rewrite keep_alive_ones, theta_gamma_at_ones.
+  rewrite nq_inv; [ring|]. apply comb_count_pos, gamma_len_pos.
+Qed.
+
+
+
+Lemma count_true_all {A} (f : A -> bool) l : (forall x, In x l -> f x = true) -> count_true (map f l) = length l.
+Proof.
+  induction l as [|x t IH]; intros H; [reflexivity|]. unfold count_true in *. cbn [map filter].
+  rewrite (H x) by (left; reflexivity). cbn [length]. f_equal. apply IH. intros y Hy. apply H. right. exact Hy.
+Qed.
+
+Lemma nq_ge_half n : 1 <= n -> bin (nq n) = true.
+Proof. intros H. apply bin_true. unfold nq, Qlt. cbn. lia. Qed.
+Lemma bin_eq x y : (x == y)%Q -> bin x = bin y.
+Proof.
+  intros E. destruct (bin y) eqn:B.
+  - apply bin_true. apply bin_true in B. rewrite E. exact B.
+  - apply bin_false. apply bin_false in B. rewrite E. exact B.
+Qed.
+
+Lemma combine_map_seq {A B} (f : nat -> A) (g : nat -> B) l : combine (map f l) (map g l) = map (fun i => (f i, g i)) l.
+Proof. induction l as [|x t IH]; [reflexivity|]. cbn. f_equal. exact IH. Qed.
+
+(* with all masks open every tap is kept, for EVERY K >= 1 *)
+Theorem k_opt_open K : 1 <= K -> kernel_size_opt true K (repeat 1%Q K) (repeat 1%Q (gamma_len K)) = K.
+Proof.
+  intros HK. unfold kernel_size_opt, time_mask, theta_gamma, theta_beta. rewrite repeat_length.
+  rewrite combine_map_seq, map_map. rewrite count_true_all; [apply seq_length|].
+  intros j Hj. apply in_seq in Hj. cbn [fst snd]. apply andb_true_intro. split.
+  - rewrite keep_alive_ones. rewrite (bin_eq _ _ (theta_gamma_at_ones _ _)). apply nq_ge_half, comb_count_pos, gamma_len_pos.
+  - rewrite keep_alive_ones, firstn_repeat by lia. rewrite (bin_eq _ _ (qsum_repeat_one _)). apply nq_ge_half. lia.
+Qed.
+
+Lemma map_repeat' {A B} (f : A -> B) x n : map f (repeat x n) = repeat (f x) n.
+Proof. induction n; [reflexivity|]. cbn. f_equal. assumption. Qed.
+
+Lemma theta_a_open m n : m_alpha m = repeat 1%Q n -> theta_a m = repeat 1%Q n.
+Proof.
+  intros E. unfold theta_a, theta_alpha_frozen, theta_alpha. rewrite E.
+  destruct (m_afrozen m); [exact (map_repeat' (fun _ => 1%Q) 1%Q n)|apply keep_alive_ones].
+Qed.
+Lemma out_opt_open m n : m_alpha m = repeat 1%Q n -> out_opt m = n.
+Proof.
+  intros E. unfold out_opt, feat_mask. rewrite (theta_a_open m n E), map_repeat'.
+  change (bin 1) with true. clear. induction n; [reflexivity|]. unfold count_true in *. cbn. f_equal. assumption.
+Qed.
+
+(* ------------------------------------------------------------------ hyper-parameters up to equality of rationals *)
+Definition hp_eq (a b : hp) : Prop :=
+  (h_in a == h_in b)%Q /\ (h_out a == h_out b)%Q /\ Forall2 Qeq (h_k a) (h_k b) /\
+  h_groups a = h_groups b /\ h_bias a = h_bias b /\ h_oshape a = h_oshape b.
+(* a cost function of real numbers: equal rationals (3/3 and 1) give equal costs *)
+Definition spec_proper (spec : cspec) : Prop :=
+  forall k dw a b, hp_eq a b -> (s_fn spec k dw a == s_fn spec k dw b)%Q.
+
+Lemma Forall2_Qeq_refl l : Forall2 Qeq l l.
+Proof. induction l; constructor; [reflexivity|assumption]. Qed.
+
+Lemma Forall2_nth {A B} (R : A -> B -> Prop) l1 l2 d1 d2 : Forall2 R l1 l2 -> R d1 d2 -> forall i, R (nth i l1 d1) (nth i l2 d2).
+Proof. intros H Hd. induction H as [|x y l1 l2 Hxy H IH]; intros [|i]; cbn; auto. Qed.
+
+Definition alpha_open (l : layer) (m : lmask) : Prop := m_alpha m = repeat 1%Q (l_cout l).
+
+Section OpenNet.
+  Variable net : list layer.
+  Variable ms : list lmask.
+  Hypothesis Hopen : Forall2 alpha_open net ms.
+
+  Lemma alpha_open_nth i : alpha_open (nth i net dlayer) (nth i ms dmask).
+  Proof. apply Forall2_nth; [exact Hopen|reflexivity]. Qed.
+
+  Lemma calc_count_open c : calc_count ms c = calc_width net c.
+  Proof.
+    induction c as [n|i|p m IH|l IH] using calc_ind2; cbn [calc_count calc_width].
+    - reflexivity.
+    - apply out_opt_open, alpha_open_nth.
+    - rewrite IH. reflexivity.
+    - induction IH as [|c t Hc Ht IHt]; [reflexivity|]. rewrite Hc, IHt. reflexivity.
+  Qed.
+  Lemma calc_feat_open c : (calc_feat ms c == nq (calc_width net c))%Q.
+  Proof.
+    induction c as [n|i|p m IH|l IH] using calc_ind2; cbn [calc_feat calc_width].
+    - reflexivity.
+    - rewrite (theta_a_open _ _ (alpha_open_nth i)). apply qsum_repeat_one.
+    - rewrite IH, nq_mult. reflexivity.
+    - induction IH as [|c t Hc Ht IHt]; [reflexivity|]. rewrite Hc, IHt, nq_plus. reflexivity.
+  Qed.
+End OpenNet.
+
+(* static well-formedness used by the open-mask theorem: the calculator describes a tensor as wide as the layer's
+   input, a Conv1d has one kernel dimension K >= 1 *)
+Definition wf_open (net : list layer) (l : layer) : Prop :=
+  l_search l = true ->
+  calc_width net (l_calc l) = l_cin l /\ (l_kind l = KConv1d -> l_ks l = [ksize l] /\ 1 <= ksize l).
+
+Lemma open_mask_alpha l m : open_mask l m -> alpha_open l m.
+Proof. intros [H _]. exact H. Qed.
+
+Lemma open_hp net ms d l m site :
+  Forall2 alpha_open net ms -> wf_open net l -> l_search l = true -> open_mask l m ->
+  hp_eq (pit_hp ms d l m site) (static_hp l site).
+Proof.
+  intros Ho Hw Hs [Ha [Hb Hg]]. destruct (Hw Hs) as [Hc Hk]. unfold hp_eq, pit_hp, static_hp. cbn [h_in h_out h_k h_groups h_bias h_oshape].
+  repeat split.
+  - destruct d; [rewrite (calc_count_open net ms Ho), Hc; reflexivity|rewrite (calc_feat_open net ms Ho), Hc; reflexivity].
+  - destruct d; [rewrite (out_opt_open m _ Ha); reflexivity|rewrite (theta_a_open m _ Ha); apply qsum_repeat_one].
+  - destruct (l_kind l) eqn:Ek; try apply Forall2_Qeq_refl.
+    destruct (Hk eq_refl) as [E1 E2]. rewrite E1. cbn [map]. constructor; [|constructor].
+    rewrite Hb, Hg. destruct d; [rewrite (k_opt_open _ E2); reflexivity|apply (k_eff_open _ E2)].
+Qed.
+
+Lemma qsum_map_ext2 {A} (f g : A -> Q) l : (forall x, In x l -> (f x == g x)%Q) -> (qsum (map f l) == qsum (map g l))%Q.
+Proof. apply qsum_map_ext. Qed.
+
+Lemma open_layer_cost spec net ms d l m :
+  spec_proper spec -> Forall2 alpha_open net ms -> wf_open net l -> open_mask l m ->
+  (pit_layer_cost spec ms d l m == plain_layer_cost spec l)%Q.
+Proof.
+  intros Hp Ho Hw Hm. unfold pit_layer_cost, plain_layer_cost. apply qsum_map_ext. intros site _.
+  destruct (l_search l) eqn:Hs; [|reflexivity]. apply Hp. apply (open_hp net); assumption.
+Qed.
+
+(* before any mask is pruned: continuous cost = discrete cost = cost of the original network *)
+Theorem cost_open_eq_original spec net ms d full :
+  spec_proper spec -> Forall (wf_open net) net -> Forall2 open_mask net ms ->
+  (pit_cost spec net ms d full == plain_cost spec full net)%Q.
+Proof.
+  intros Hp Hw Hm.
+  assert (Ho : Forall2 alpha_open net ms).
+  { clear - Hm. induction Hm; constructor; [apply open_mask_alpha|]; assumption. }
+  unfold pit_cost, plain_cost.
+  assert (G : forall net' ms', Forall (wf_open net) net' -> Forall2 open_mask net' ms' ->
+    (qsum (map (fun lm => if counted full (fst lm) then pit_layer_cost spec ms d (fst lm) (snd lm) else 0%Q) (combine net' ms')) ==
+     qsum (map (fun l => if counted full l then plain_layer_cost spec l else 0%Q) net'))%Q).
+  { intros net' ms' Hw' Hm'. induction Hm' as [|l m net' ms' Hlm Hm' IH]; [reflexivity|].
+    inversion Hw' as [|? ? Hwl Hw'']; subst. cbn [combine map]. rewrite !qsum_cons, (IH Hw''). cbn [fst snd].
+    destruct (counted full l); [|reflexivity]. rewrite (open_layer_cost spec net ms d l m Hp Ho Hwl Hlm). reflexivity. }
+  apply G; assumption.
+Qed.
+
+Lemma open_of_open l : open_mask l (open_of l).
+Proof. unfold open_mask, open_of. cbn. repeat split. Qed.
+Lemma open_of_net net : Forall2 open_mask net (map open_of net).
+Proof. induction net; constructor; [apply open_of_open|assumption]. Qed.
+
+
+
+(* ------------------------------------------------------------------ the five built-in specifications *)
+Lemma groups_blind_params : groups_blind params_spec.
+Proof. intros k dw a b c g g' d e. reflexivity. Qed.
+Lemma groups_blind_params_nb : groups_blind params_nb_spec.
+Proof. intros k dw a b c g g' d e. reflexivity. Qed.
+Lemma groups_blind_ops : groups_blind ops_spec.
+Proof. intros k dw a b c g g' d e. reflexivity. Qed.
+Lemma groups_blind_ops_nb : groups_blind ops_nb_spec.
+Proof. intros k dw a b c g g' d e. reflexivity. Qed.
+Lemma groups_blind_gap8 : groups_blind gap8_spec.
+Proof. intros k dw a b c g g' d e. reflexivity. Qed.
+
+Lemma nth_Forall2_Qeq l l' i : Forall2 Qeq l l' -> (nth i l 0 == nth i l' 0)%Q.
+Proof. intros H. revert i. induction H; intros [|i]; cbn; auto; reflexivity. Qed.
+
+Lemma fl_proper x y n : (x == y)%Q -> fl x n = fl y n.
+Proof. intros E. unfold fl. f_equal. apply Qfloor_comp. rewrite E. reflexivity. Qed.
+
+Ltac hp_setup :=
+  intros k dw [ai ao ak ag ab ash] [bi bo bk bg bb bsh] (Hi & Ho & Hk & Hg & Hb & Hs);
+  cbn [h_in h_out h_k h_groups h_bias h_oshape] in *; subst bg bb bsh;
+  pose proof (nth_Forall2_Qeq _ _ 0 Hk) as Hk0; pose proof (nth_Forall2_Qeq _ _ 1 Hk) as Hk1.
+
+Lemma proper_params : spec_proper params_spec.
+Proof.
+  hp_setup. cbn [s_fn params_spec]. unfold params_fn, k0, k1. cbn [h_in h_out h_k h_bias].
+  destruct k, dw; rewrite ?Hi, ?Ho, ?Hk0, ?Hk1; reflexivity.
+Qed.
+Lemma proper_params_nb : spec_proper params_nb_spec.
+Proof.
+  hp_setup. cbn [s_fn params_nb_spec]. unfold params_nb_fn, k0, k1. cbn [h_in h_out h_k h_bias].
+  destruct k, dw; rewrite ?Hi, ?Ho, ?Hk0, ?Hk1; reflexivity.
+Qed.
+Lemma proper_ops : spec_proper ops_spec.
+Proof.
+  hp_setup. cbn [s_fn ops_spec]. unfold ops_fn, params_fn, spatial, os, k0, k1. cbn [h_in h_out h_k h_bias h_oshape].
+  destruct k, dw; rewrite ?Hi, ?Ho, ?Hk0, ?Hk1; reflexivity.
+Qed.
+Lemma proper_ops_nb : spec_proper ops_nb_spec.
+Proof.
+  hp_setup. cbn [s_fn ops_nb_spec]. unfold ops_nb_fn, params_nb_fn, spatial, os, k0, k1. cbn [h_in h_out h_k h_bias h_oshape].
+  destruct k, dw; rewrite ?Hi, ?Ho, ?Hk0, ?Hk1; reflexivity.
+Qed.
+Lemma proper_gap8 : spec_proper gap8_spec.
+Proof.
+  hp_setup. cbn [s_fn gap8_spec]. unfold gap8_fn, os, k0, k1. cbn [h_in h_out h_k h_bias h_oshape].
+  destruct k, dw; try reflexivity.
+  - rewrite (fl_proper ao bo 4 Ho). rewrite Hk0, Hk1. reflexivity.
+  - assert (E : (nth 0 ak 0 * nth 1 ak 0 * ai == nth 0 bk 0 * nth 1 bk 0 * bi)%Q) by (rewrite Hk0, Hk1, Hi; reflexivity).
+    rewrite (fl_proper _ _ 4 E), (fl_proper ao bo 4 Ho), E. reflexivity.
+  - rewrite (fl_proper ai bi 2 Hi), (fl_proper ao bo 4 Ho). reflexivity.
+  - rewrite (fl_proper ai bi 2 Hi), (fl_proper ao bo 4 Ho). reflexivity.
+Qed.
+
+(* at 1 -> 1 channels the depthwise and the generic formula coincide *)
+Definition dw_insensitive (spec : cspec) : Prop :=
+  forall k h, (h_in h == 1)%Q -> (h_out h == 1)%Q -> (s_fn spec k true h == s_fn spec k false h)%Q.
+Lemma dw_insensitive_params : dw_insensitive params_spec.
+Proof. intros k h Hi Ho. cbn [s_fn params_spec]. unfold params_fn. destruct k; rewrite ?Hi, ?Ho; ring. Qed.
+Lemma dw_insensitive_params_nb : dw_insensitive params_nb_spec.
+Proof. intros k h Hi Ho. cbn [s_fn params_nb_spec]. unfold params_nb_fn. destruct k; rewrite ?Hi, ?Ho; ring. Qed.
+Lemma dw_insensitive_ops : dw_insensitive ops_spec.
+Proof. intros k h Hi Ho. cbn [s_fn ops_spec]. unfold ops_fn, params_fn. destruct k; rewrite ?Hi, ?Ho; ring. Qed.
+Lemma dw_insensitive_ops_nb : dw_insensitive ops_nb_spec.
+Proof. intros k h Hi Ho. cbn [s_fn ops_nb_spec]. unfold ops_nb_fn, params_nb_fn. destruct k; rewrite ?Hi, ?Ho; ring. Qed.
+
+(* ------------------------------------------------------------------ discrete = exported, without the guard, for such metrics *)
+Lemma layer_cost_export_ins spec ms l m : groups_blind spec -> dw_insensitive spec ->
+  wf_layer_b l = true -> dw_consistent_b ms l m = true ->
+  (pit_layer_cost spec ms true l m == plain_layer_cost spec (export_layer ms l m))%Q.
+Proof.
+  intros Hg Hi Hw Hc. destruct (degenerate_b ms l m) eqn:Hd.
+  2: { rewrite (layer_cost_export spec ms l m Hg Hc Hd). reflexivity. }
+  unfold degenerate_b in Hd.
+  apply andb_prop in Hd. destruct Hd as [Hd1 Hd2]. apply andb_prop in Hd1. destruct Hd1 as [Hd1 Hn].
+  apply andb_prop in Hd1. destruct Hd1 as [Hs Hk]. apply negb_true_iff in Hn.
+  assert (G1 : l_groups l = 1).
+  { unfold wf_layer_b in Hw. apply andb_prop in Hw. destruct Hw as [_ Hw].
+    destruct (l_kind l); cbn [is_conv] in Hk; try discriminate;
+      apply andb_prop in Hw; destruct Hw as [Hw _]; rewrite Hn in Hw; cbn [andb orb] in Hw;
+      rewrite orb_false_r in Hw; apply Nat.eqb_eq in Hw; exact Hw. }
+  unfold dwc in Hd2. rewrite G1 in Hd2. apply andb_prop in Hd2. destruct Hd2 as [E1 E2]. apply Nat.eqb_eq in E1, E2.
+  assert (Ed : static_dw (export_layer ms l m) = true).
+  { unfold export_layer. rewrite Hs. unfold static_dw at 1. cbn [l_kind l_cin l_cout l_groups].
+    destruct (l_kind l); cbn [is_conv] in Hk; try discriminate; rewrite Hn, G1, E1, E2; reflexivity. }
+  unfold pit_layer_cost, plain_layer_cost. rewrite export_sites_of, export_kind, Ed, Hn, Hs.
+  apply qsum_map_ext. intros site _.
+  rewrite (pit_hp_export ms l m site Hs). cbn zeta.
+  rewrite (Hg _ _ _ _ _ (l_groups l) (l_groups (export_layer ms l m))). symmetry.
+  apply Hi; unfold static_hp; cbn [h_in h_out]; unfold export_layer; rewrite Hs; cbn [l_cin l_cout]; rewrite ?E1, ?E2; reflexivity.
+Qed.
+
+Definition wf_net (net : list layer) : Prop := Forall (fun l => wf_layer_b l = true) net.
+
+Lemma In_combine_l {A B} (l : list A) (l' : list B) x y : In (x, y) (combine l l') -> In x l.
+Proof. apply in_combine_l. Qed.
+
+Theorem cost_discrete_eq_export_insensitive spec net ms full :
+  groups_blind spec -> dw_insensitive spec -> wf_net net -> dw_consistent net ms ->
+  (pit_cost spec net ms true full == plain_cost spec full (export_net net ms))%Q.
+Proof.
+  intros Hg Hi Hw Hc. unfold pit_cost, plain_cost, export_net. rewrite map_map.
+  apply qsum_map_ext. intros [l m] Hin. cbn [fst snd]. rewrite export_counted.
+  destruct (counted full l); [|reflexivity].
+  unfold dw_consistent, wf_net in *. rewrite Forall_forall in Hc, Hw.
+  apply layer_cost_export_ins; [exact Hg|exact Hi|apply Hw; exact (in_combine_l _ _ _ _ Hin)|exact (Hc _ Hin)].
+Qed.
+
+(* ------------------------------------------------------------------ params = number of weights and biases *)
+Lemma nq_bias (b : bool) (n : nat) : (nq (if b then n else 0%nat) == bq b * nq n)%Q.
+Proof. destruct b; unfold bq; [ring|]. unfold nq. cbn. ring. Qed.
+
+Lemma params_layer_numel l : wf_layer_b l = true -> (plain_layer_cost params_spec l == nq (numel l))%Q.
+Proof.
+  intros Hw. unfold wf_layer_b in Hw. apply andb_prop in Hw. destruct Hw as [Hs Hw].
+  unfold plain_layer_cost, sites_of. cbn [s_shared params_spec s_fn].
+  destruct (l_sites l) as [|site rest]; [discriminate|]. cbn [firstn map]. rewrite qsum_cons, qsum_nil.
+  unfold numel, static_hp, params_fn, static_dw, k0, k1. cbn [h_in h_out h_k h_bias].
+  destruct (l_kind l) eqn:Ek.
+  - (* conv1d *) apply andb_prop in Hw. destruct Hw as [Hg Hl]. apply Nat.eqb_eq in Hl.
+    destruct (l_ks l) as [|ka [|kb ks]]; try discriminate. cbn [map nth prod_nat fold_right].
+    destruct (dwc (l_cin l) (l_cout l) (l_groups l)) eqn:Ed.
+    + unfold dwc in Ed. apply andb_prop in Ed. destruct Ed as [E1 E2]. apply Nat.eqb_eq in E1, E2.
+      unfold static_dw in Hg. rewrite Ek in Hg. unfold dwc in Hg. rewrite E1, E2, !Nat.eqb_refl in Hg. cbn [andb] in Hg.
+      assert (G : 1 <= l_groups l).
+      { destruct (Nat.eqb (l_groups l) 1) eqn:E; [apply Nat.eqb_eq in E; lia|]. cbn [orb] in Hg. apply Nat.leb_le in Hg. exact Hg. }
+      rewrite E1, E2, Nat.div_same by lia. rewrite nq_plus, !nq_mult, nq_bias. change (nq 1) with 1%Q. ring.
+    + unfold static_dw in Hg. rewrite Ek, Ed in Hg. cbn [andb orb] in Hg. rewrite orb_false_r in Hg. apply Nat.eqb_eq in Hg.
+      rewrite Hg, Nat.div_1_r. rewrite nq_plus, !nq_mult, nq_bias. change (nq 1) with 1%Q. ring.
+  - (* conv2d *) apply andb_prop in Hw. destruct Hw as [Hg Hl]. apply Nat.eqb_eq in Hl.
+    destruct (l_ks l) as [|ka [|kb [|kc ks]]]; try discriminate. cbn [map nth prod_nat fold_right].
+    destruct (dwc (l_cin l) (l_cout l) (l_groups l)) eqn:Ed.
+    + unfold dwc in Ed. apply andb_prop in Ed. destruct Ed as [E1 E2]. apply Nat.eqb_eq in E1, E2.
+      unfold static_dw in Hg. rewrite Ek in Hg. unfold dwc in Hg. rewrite E1, E2, !Nat.eqb_refl in Hg. cbn [andb] in Hg.
+      assert (G : 1 <= l_groups l).
+      { destruct (Nat.eqb (l_groups l) 1) eqn:E; [apply Nat.eqb_eq in E; lia|]. cbn [orb] in Hg. apply Nat.leb_le in Hg. exact Hg. }
+      rewrite E1, E2, Nat.div_same by lia. rewrite nq_plus, !nq_mult, nq_bias. change (nq 1) with 1%Q. ring.
+    + unfold static_dw in Hg. rewrite Ek, Ed in Hg. cbn [andb orb] in Hg. rewrite orb_false_r in Hg. apply Nat.eqb_eq in Hg.
+      rewrite Hg, Nat.div_1_r. rewrite nq_plus, !nq_mult, nq_bias. change (nq 1) with 1%Q. ring.
+  - (* linear *) apply andb_prop in Hw. destruct Hw as [Hg Hl]. apply Nat.eqb_eq in Hg, Hl.
+    destruct (l_ks l); try discriminate. cbn [prod_nat fold_right].
+    rewrite Hg, Nat.div_1_r. rewrite nq_plus, !nq_mult, nq_bias. change (nq 1) with 1%Q. ring.
+Qed.
+
+Lemma nq_fold_sum (f : layer -> nat) (net : list layer) :
+  (nq (fold_right Nat.add 0%nat (map f net)) == qsum (map (fun l => nq (f l)) net))%Q.
+Proof. induction net as [|l t IH]; [reflexivity|]. cbn [map fold_right]. rewrite nq_plus, qsum_cons, IH. reflexivity. Qed.
+
+Theorem params_plain_is_numel net full : wf_net net ->
+  (plain_cost params_spec full net == nq (numel_net full net))%Q.
+Proof.
+  intros Hw. unfold plain_cost, numel_net. rewrite nq_fold_sum. apply qsum_map_ext. intros l Hl.
+  unfold wf_net in Hw. rewrite Forall_forall in Hw.
+  destruct (counted full l); [apply params_layer_numel, Hw, Hl|reflexivity].
+Qed.
+
+Lemma export_wf ms l m : wf_layer_b l = true -> dw_consistent_b ms l m = true ->
+  (l_search l = true -> static_dw l = true -> 1 <= out_opt m) -> wf_layer_b (export_layer ms l m) = true.
+Proof.
+  intros Hw Hc Hpos. destruct (l_search l) eqn:Hs; [|rewrite export_fixed; assumption].
+  unfold wf_layer_b in *. rewrite export_sites, export_kind. apply andb_prop in Hw. destruct Hw as [Hsites Hw].
+  rewrite Hsites. cbn [andb]. unfold export_layer. rewrite Hs. cbn [l_groups l_ks].
+  unfold dw_consistent_b in Hc. rewrite Hs in Hc. cbn [andb] in Hc.
+  destruct (l_kind l) eqn:Ek.
+  - apply andb_prop in Hw. destruct Hw as [Hg Hl]. apply andb_true_intro. split; [|reflexivity].
+    destruct (static_dw l) eqn:Ed.
+    + cbn [negb orb] in Hc. apply Nat.eqb_eq in Hc. unfold static_dw. cbn [l_kind l_cin l_cout l_groups]. rewrite Hc, dwc_refl. cbn [andb]. apply orb_true_intro. right.
+      apply Nat.leb_le. rewrite <- Hc. apply Hpos; reflexivity.
+    + cbn [andb orb] in Hg. rewrite orb_false_r in Hg. rewrite Hg. reflexivity.
+  - apply andb_prop in Hw. destruct Hw as [Hg Hl]. apply andb_true_intro. split; [|exact Hl].
+    destruct (static_dw l) eqn:Ed.
+    + cbn [negb orb] in Hc. apply Nat.eqb_eq in Hc. unfold static_dw. cbn [l_kind l_cin l_cout l_groups]. rewrite Hc, dwc_refl. cbn [andb]. apply orb_true_intro. right.
+      apply Nat.leb_le. rewrite <- Hc. apply Hpos; reflexivity.
+    + cbn [andb orb] in Hg. rewrite orb_false_r in Hg. rewrite Hg. reflexivity.
+  - exact Hw.
+Qed.
+
+Lemma out_opt_pos m : m_alpha m <> [] -> 1 <= out_opt m.
+Proof.
+  intros H. unfold out_opt, feat_mask, theta_a. destruct (m_afrozen m).
+  - unfold theta_alpha_frozen. rewrite map_map. change (fun x : Q => bin ((fun _ => 1%Q) x)) with (fun _ : Q => true).
+    rewrite count_true_all by reflexivity. destruct (m_alpha m); [contradiction|cbn; lia].
+  - apply (alpha_alive _ H).
+Qed.
+
+Definition masks_nonempty (net : list layer) (ms : list lmask) : Prop :=
+  Forall (fun lm => m_alpha (snd lm) <> []) (combine net ms).
+
+Lemma export_net_wf net ms : wf_net net -> dw_consistent net ms -> masks_nonempty net ms -> wf_net (export_net net ms).
+Proof.
+  intros Hw Hc Hn. unfold wf_net, export_net. apply Forall_forall. intros e He. apply in_map_iff in He.
+  destruct He as [[l m] [E Hin]]. subst e. cbn [fst snd].
+  unfold wf_net, dw_consistent, masks_nonempty in *. rewrite Forall_forall in Hw, Hc, Hn.
+  apply export_wf; [apply Hw; exact (in_combine_l _ _ _ _ Hin)|exact (Hc _ Hin)|].
+  intros _ _. apply out_opt_pos. exact (Hn _ Hin).
+Qed.
+
+(* for `params` the discrete PIT cost is the number of weights and biases of the exported conv / linear layers *)
+Theorem params_is_numel net ms full : wf_net net -> dw_consistent net ms -> masks_nonempty net ms ->
+  (pit_cost params_spec net ms true full == nq (numel_net full (export_net net ms)))%Q.
+Proof.
+  intros Hw Hc Hn.
+  rewrite (cost_discrete_eq_export_insensitive params_spec net ms full groups_blind_params dw_insensitive_params Hw Hc).
+  apply params_plain_is_numel, export_net_wf; assumption.
+Qed.
+
+(* ------------------------------------------------------------------ full_cost adds exactly the layers that are not searched *)
+Definition fixed_cost (spec : cspec) (net : list layer) : Q :=
+  qsum (map (fun l => if l_search l then 0%Q else plain_layer_cost spec l) net).
+
+Theorem full_cost_adds_fixed spec net ms d : length ms = length net ->
+  (pit_cost spec net ms d true == pit_cost spec net ms d false + fixed_cost spec net)%Q.
+Proof.
+  unfold pit_cost, fixed_cost. generalize ms at 2 4 as gms. intros gms. revert ms.
+  induction net as [|l t IH]; intros [|m ms] H; try discriminate.
+  - cbn. ring.
+  - cbn [combine map]. rewrite !qsum_cons, (IH ms) by (cbn in H; lia). cbn [fst snd]. unfold counted.
+    destruct (l_search l) eqn:Hs; cbn [orb].
+    + ring.
+    + unfold pit_layer_cost, plain_layer_cost. rewrite Hs. ring.
+Qed.
+
+(* ------------------------------------------------------------------ shared and per-invocation metrics *)
+Definition site_cost (spec : cspec) (ms : list lmask) (d : bool) (l : layer) (m : lmask) (site : list nat) : Q :=
+  s_fn spec (l_kind l) (static_dw l) (if l_search l then pit_hp ms d l m site else static_hp l site).
+
+Theorem shared_counts_once spec ms d l m s rest : s_shared spec = true -> l_sites l = s :: rest ->
+  (pit_layer_cost spec ms d l m == site_cost spec ms d l m s)%Q.
+Proof. intros Hs E. unfold pit_layer_cost, sites_of. rewrite Hs, E. cbn [firstn map]. rewrite qsum_cons, qsum_nil. unfold site_cost. ring. Qed.
+
+Theorem per_invocation_counts_each spec ms d l m : s_shared spec = false ->
+  pit_layer_cost spec ms d l m = qsum (map (site_cost spec ms d l m) (l_sites l)).
+Proof. intros Hs. unfold pit_layer_cost, sites_of. rewrite Hs. reflexivity. Qed.
+
+Corollary invoked_twice spec ms d l m s : l_sites l = [s; s] ->
+  (pit_layer_cost spec ms d l m == (if s_shared spec then 1 else 2) * site_cost spec ms d l m s)%Q.
+Proof.
+  intros E. destruct (s_shared spec) eqn:Hs.
+  - rewrite (shared_counts_once spec ms d l m s [s] Hs E). ring.
+  - rewrite (per_invocation_counts_each spec ms d l m Hs), E. cbn [map]. rewrite !qsum_cons, qsum_nil. ring.
+Qed.
+
+(* ------------------------------------------------------------------ the guard is necessary (gap8_latency) *)
+Definition wit_net : list layer := [mkLayer KConv2d 1 3 1 [3; 3] true true (CConst 1) [[6; 6]]].
+Definition wit_ms : list lmask := [mkMask false [0; 0; 0]%Q [] []].
+Lemma wit_values : qpair (pit_cost gap8_spec wit_net wit_ms true false) = (225, 1)%Z /\
+                   qpair (plain_cost gap8_spec false (export_net wit_net wit_ms)) = (1296, 1)%Z /\
+                   map lsize (export_net wit_net wit_ms) = [(1, 1, 1, [3; 3])].
+Proof. vm_compute. repeat split. Qed.
+
+Theorem dw_degenerate_refuted : exists net ms, wf_net net /\ dw_consistent net ms /\ masks_nonempty net ms /\
+  ~ (pit_cost gap8_spec net ms true false == plain_cost gap8_spec false (export_net net ms))%Q.
+Proof.
+  exists wit_net, wit_ms. repeat split.
+  - repeat constructor.
+  - repeat constructor.
+  - repeat constructor. cbn. discriminate.
+  - intro H. vm_compute in H. discriminate H.
+Qed.
